@@ -8,15 +8,18 @@ TECH = "Lean 4 theorems over an executable model + checked model/code correspond
 
 CHECKS = {
     "C05": dict(
-        text="Lean 4 proof, for every bipartite feasibility graph, that the model's hit count (a certifying "
-             "Kuhn/König algorithm with a proved checker and a proved exponential fallback) is the size of a valid "
-             "one-to-one pairing of feasible pairs and that no larger one exists, plus order/enumeration "
-             "independence; every pairing returned by the real util._bipartite_match / util.match_events on the "
-             "explored instances is run through the proved checker (valid and of maximum size), exhaustively for all "
-             "graphs up to 3x4 (quick) / 4x5 (thorough) vertices.",
-        note="Trusted: Lean kernel, axioms propext/Classical.choice/Quot.sound, the correspondence harness. The Python "
-             "Hopcroft-Karp is not transliterated: its outputs are certified per explored instance, not for all graphs. "
-             "fastHitWindows = |ref-est|<=w is compared (exact lattice), not yet proved.",
+        text="Lean 4 proofs, for every bipartite feasibility graph: (1) a dict-order-faithful transliteration of the "
+             "Python Hopcroft-Karp routine util._bipartite_match (greedy start, layered BFS, recursive augmentation with "
+             "its del pred[u] / del preds[v] bookkeeping) returns a one-to-one pairing of feasible pairs of MAXIMUM size "
+             "(Koenig cover from the final layering + weak duality; fuel bounds shown never to bind), and its size does not "
+             "depend on dict order; (2) the same for an independent certifying model (Kuhn + Koenig certificate + proved "
+             "brute-force fallback); (3) util._fast_hit_windows enumerates exactly the pairs with |ref-est| <= window; "
+             "(4) note matching criteria as hit metrics. The transliteration is compared pair-for-pair with the real "
+             "routine on ALL dicts up to 3x4 (quick) / 4x5 (thorough) and on shuffled random dicts; every pairing "
+             "returned by match_events / match_notes / match_note_onsets / match_note_offsets / multipitch is run "
+             "through the proved checker (valid and of maximum size).",
+        note="Trusted: Lean kernel, axioms propext/Classical.choice/Quot.sound, the correspondence harness. That the "
+             "transliteration equals the Python routine is checked (exhaustively on small dicts), not proved.",
         design="§4.1, §5 C05"),
     "C01": dict(
         text="Lean 4 proofs that every hit-based precision/recall/F (any feasibility predicate, any inputs incl. empty "
